@@ -377,10 +377,12 @@ def objdump_of(elf: bytes, sections=None, style="att"):
     return rc, out
 
 
-RULE_NAMES = ["rule.yaml", "rule.yaml", "rules/my rule.yaml", "r.yml", "r\u00e8gle.yaml", "deep/er/dir/rule.yaml", "rule"]
-ASM_NAMES = ["in.s", "in.s", "dir with space/in put.s", "sub/listing.s", "dump.txt", "in"]
-BIN_NAMES = ["in.bin", "in.o", "bin dir/a b.o", "prog", "sub/lib.so.1", "caf\u00e9.o"]
-MACRO_DIRS = ["macros", "macros", "my macros", "m/acro"]
+RULE_NAMES = ["rule.yaml", "rule.yaml", "rules/my rule.yaml", "r.yml", "r\u00e8gle.yaml", "deep/er/dir/rule.yaml", "rule",
+              "h#sh & amp.yaml", "100%.yaml", "q'uote.yaml", "br[ack]et{s}.yaml"]
+ASM_NAMES = ["in.s", "in.s", "dir with space/in put.s", "sub/listing.s", "dump.txt", "in", "50%_packed.s", "star*.s", "we ird$name;x.s",
+             "listing.o", "UPPER.ASM"]
+BIN_NAMES = ["in.bin", "in.o", "bin dir/a b.o", "prog", "sub/lib.so.1", "caf\u00e9.o", "100%.o", "obj.s", "obj.S", "code.asm", "a'b\"c.o", "x[1]?.o"]
+MACRO_DIRS = ["macros", "macros", "my macros", "m/acro", "100% macros"]
 
 
 def pick_names(rng):
@@ -464,4 +466,13 @@ def gen_asm_source_32(rng):
         r, q = "%" + rng.choice(regs), "%" + rng.choice(regs)
         out.append({0: f"\tpush {r}", 1: f"\tmov {r},{q}", 2: f"\tmov $0x{rng.randrange(1, 255):x},{r}", 3: "\tcall f0", 4: f"\tadd 0x8({r}),{q}",
                     5: "\tret", 6: f"\tlea 0x10({r},{q},4),%eax"}[k])
+    return "\n".join(out) + "\n", [{"name": ".text", "raw": False, "data": False}]
+
+
+def gen_big_source(rng, n):
+    """One .text section with n instructions (for `as`): objects whose listing has tens of thousands of lines."""
+    out = ["\t.text", "L1:"]
+    for i in range(n):
+        mn, ops = gen_instruction(rng, valid_for_as=True, labels=["L1"])
+        out.append("\t" + mn + ("\t" + ",".join(ops) if ops else ""))
     return "\n".join(out) + "\n", [{"name": ".text", "raw": False, "data": False}]
